@@ -200,15 +200,6 @@ func c20Judge(c ev.Case, cur *baselineTables) Res {
 		if strings.IndexByte(key, 0) >= 0 {
 			return fail("%s name %q contains NUL: NUL stripping makes it unreachable", c.Kind, key)
 		}
-		if c.Kind != "tag" {
-			m := cur.Attrs
-			if c.Kind == "event" {
-				m = cur.Events
-			}
-			if v := m[key]; v < 1 || v > 4 {
-				return fail("%s %q has attribute type %d outside 1..4", c.Kind, key, v)
-			}
-		}
 		return Res{NT: true, Class: c.Kind}
 	case "base_keyword":
 		v, ok := cur.Keywords[key]
